@@ -142,7 +142,8 @@ def _findall(
                     return None
                 else:
                     # # n0print("*"*30 + f" Deep after condition [{child_index}]...")
-                    found_xpath_list[-1] += seeked_xpath_list[0]
+                    # The condition only filters: the found xpath stays the xpath of the node itself, so that
+                    # every key of the result resolves through item access (which compares case sensitive)
                     return _findall(
                                     parent_node,
                                     seeked_xpath_list[1:],
